@@ -275,7 +275,7 @@ fn read_op(c: &mut Cfb, helper: &Engine, handles: &mut Vec<Option<RHandle>>, op:
             }
             Ok(true)
         }
-        Op::HRead { slot, .. } | Op::HReadExact { slot, .. } | Op::HFillConsume { slot, .. } | Op::HSeek { slot, .. } | Op::HReadToEnd { slot } | Op::HPos { slot } | Op::HLen { slot } => {
+        Op::HRead { slot, .. } | Op::HReadExact { slot, .. } | Op::HFillConsume { slot, .. } | Op::HSeek { slot, .. } | Op::HReadToEnd { slot } | Op::HPos { slot } | Op::HLen { slot } | Op::HReadV { slot, .. } => {
             let slot = *slot as usize % handles.len();
             let h = match handles[slot].as_mut() {
                 Some(h) => h,
@@ -325,6 +325,41 @@ fn read_op(c: &mut Cfb, helper: &Engine, handles: &mut Vec<Option<RHandle>>, op:
                         Err(e) => {
                             h.had_err = true;
                             in_read(st);
+                            position_kept(h, pos, "h_read")?;
+                            on_err!(e, false)
+                        }
+                    }
+                }
+                Op::HReadV { n1, n2, .. } => {
+                    // Read::read_vectored: "same semantics as read" - any prefix of the two buffers
+                    // taken together, and on Err nothing has been read
+                    let (n1, n2) = (*n1 as usize, *n2 as usize);
+                    let mut b1 = vec![0u8; n1];
+                    let mut b2 = vec![0u8; n2];
+                    let res = guard("h_read_vectored", || {
+                        let mut bufs = [std::io::IoSliceMut::new(&mut b1), std::io::IoSliceMut::new(&mut b2)];
+                        h.stream.read_vectored(&mut bufs)
+                    })?;
+                    match res {
+                        Ok(k) => {
+                            let avail = (len - pos) as usize;
+                            if k > (n1 + n2).min(avail) || (k == 0 && n1 + n2 > 0 && avail > 0) {
+                                return Err(Fail::new("read_fault|h_read_vectored|count", format!("read_vectored({}+{}) at {} of {} returned {}", n1, n2, pos, len, k)));
+                            }
+                            let mut got = b1[..k.min(n1)].to_vec();
+                            got.extend_from_slice(&b2[..k.saturating_sub(n1)]);
+                            if got[..] != data[pos as usize..pos as usize + k] {
+                                return Err(Fail::new("read_fault|h_read_vectored|wrong_bytes", format!("read_vectored({}+{}) at reported position {} returned {} bytes that differ from the stream's content", n1, n2, pos, k)));
+                            }
+                            if k > 0 && h.had_err {
+                                st.err_then_bytes_on_same_handle = true;
+                            }
+                            Ok(true)
+                        }
+                        Err(e) => {
+                            h.had_err = true;
+                            in_read(st);
+                            position_kept(h, pos, "h_read_vectored")?;
                             on_err!(e, false)
                         }
                     }
@@ -380,6 +415,7 @@ fn read_op(c: &mut Cfb, helper: &Engine, handles: &mut Vec<Option<RHandle>>, op:
                         Err(e) => {
                             h.had_err = true;
                             in_read(st);
+                            position_kept(h, pos, "h_fill_buf")?;
                             on_err!(e, false)
                         }
                     }
@@ -426,6 +462,21 @@ fn read_op(c: &mut Cfb, helper: &Engine, handles: &mut Vec<Option<RHandle>>, op:
         }
         _ => Ok(true),
     }
+}
+
+/// `Read::read` (and `read_vectored`, `BufRead::fill_buf`): "If an error is returned then it
+/// must be guaranteed that no bytes were read" - std's own retry loops (`read_exact`,
+/// `read_to_end` on `Interrupted`) and every retrying caller rely on it, and C12's "returns
+/// exactly what it returns without faults" for the repeated call does too: the position the
+/// handle reports after the failed call must be the one it reported before. (A position
+/// query that fails itself is not judged.)
+fn position_kept(h: &mut RHandle, before: u64, what: &str) -> Result<(), Fail> {
+    if let Ok(Ok(after)) = guard("h_pos", || h.stream.stream_position()) {
+        if after != before {
+            return Err(Fail::new(format!("read_fault|{}|position_moved_on_err", what), format!("{} returned Err but the handle's position moved from {} to {}: a caller that repeats the call gets different bytes than without the fault", what, before, after)));
+        }
+    }
+    Ok(())
 }
 
 fn ctl_image(io: &Io) -> Arc<Mutex<Vec<u8>>> {
